@@ -1,6 +1,7 @@
 """Property -> units / harnesses / stated assumptions.  Units are /verif/units/<name>.vrs."""
 
 UNIT_NOTES = {
+    "dbslot": "C09 engine database slot: the three closures that run the EVM (read_contract, read_contract_multi, add_tx_to_block) lifted into functions; mem::take ... mem::swap puts the database back on every exit path",
     "codec": "L1 codecs against injected enc/dec: real impl bodies of u8, Option<T>, (T,U) (=> codec_ok lemmas); Vec<T> and BlockHistoryCacheData<V> encode/decode bodies verified as free functions with sequence / map level round-trip lemmas (Vec and BTreeMap have no extensional equality in vstd)",
     "scalars": "L5 scalar kernels: get_gas_limit, get_inscription_byte_len, get_evm_spec, use_rlp_hash_for_tx_hash, generate_block_hash (+ lemma: parked transactions keep at most their allowance)",
     "precompile": "C09 build_lock_script of the locked-pkscript helper: panic-freedom for every pkscript and lock count",
@@ -137,10 +138,10 @@ PROPS["C08"] = {
     "assumptions": ["nonces, transaction indexes and arrival blocks are < 2^63", "drain-loop termination not proved"],
 }
 PROPS["C09"] = {
-    "units": ["payload", "precompile", "scalars", "engine", "dbfacade", "blockdb"],
+    "units": ["payload", "precompile", "scalars", "engine", "dbfacade", "blockdb", "dbslot"],
     "kani": [],
-    "level_text": "Panic-freedom and termination, with NO precondition on request-controlled arguments, of the extracted request-facing functions: payload decoders (index, slice, arithmetic), select_bytes, build_lock_script (any pkscript / lock count), gas helpers, fork schedule, mine_blocks (count 0, loop bound), block-table loops with decreases, get_logs loops; reachable panic!/expect/index are preconditions Verus must discharge.",
-    "level_note": COMMON_TRUST + "State-dependent ranges (heights, nonces < 2^63; from <= to in get_logs) are explicit preconditions. NOT covered: EVM execution (revm), async handlers, ABI decoding (sol! macro), bitcoin / bip322 crates, the mem::take wedge (needs a panic inside revm), decoders fed from the database.",
+    "level_text": "Panic-freedom and termination, with NO precondition on request-controlled arguments, of the extracted request-facing functions: payload decoders (index, slice, arithmetic), select_bytes, build_lock_script (any pkscript / lock count), gas helpers, fork schedule, mine_blocks (count 0, loop bound), block-table loops with decreases, get_logs loops; reachable panic!/expect/index are preconditions Verus must discharge; the engine's database slot: in the three closures that run the EVM (lifted, N10-lift) the database moved out with mem::take is swapped back on every exit path, including the early return when a call of an eth_callMany batch is rejected.",
+    "level_note": COMMON_TRUST + "State-dependent ranges (heights, nonces < 2^63; from <= to in get_logs) are explicit preconditions. NOT covered: EVM execution (revm; assumed to keep owning the database it was given and not to panic), async handlers, ABI decoding (sol! macro), bitcoin / bip322 crates, decoders fed from the database.",
     "assumptions": ["heights/nonces < 2^63", "external crates (revm, alloy sol types, bitcoin, bip322) outside the kernel"],
 }
 PROPS["C16"]["units"] = ["scalars", "engine"]
